@@ -22,7 +22,7 @@ fn vmstk_kb() -> u64 {
 /// the exact set of turn-start (board, side) pairs and only ends a turn on a position never seen
 /// before (and different from the turn start), so the game is legal under the repetition rules
 /// without asking the engine to scan its O(L) history every turn.
-fn play_long(turns: u64, seed: u64) -> Result<(GameState, Value), String> {
+fn play_long(turns: u64, seed: u64) -> Result<(GameState, GameState, Value), String> {
     let mut rng = Rng::new(seed, 0x2000);
     let b0 = gen::long_game_position();
     let mut g = inject(&b0, true, 2);
@@ -32,6 +32,7 @@ fn play_long(turns: u64, seed: u64) -> Result<(GameState, Value), String> {
     let key = |b: &MBoard, gold: bool| (b.fingerprint(), mix(fnv(&b.0[16..48]), gold as u64));
     seen.insert(key(&board, gold));
     let mut spot_checks = 0u64;
+    let mut mid: Option<GameState> = None;
     let mut multi_step_turns = 0u64;
     let t0 = std::time::Instant::now();
     for t in 0..turns {
@@ -88,6 +89,9 @@ fn play_long(turns: u64, seed: u64) -> Result<(GameState, Value), String> {
                 multi_step_turns += 1;
             }
             g = cur;
+            if t == turns / 2 {
+                mid = Some(g.clone()); // an older state of the same game, kept alive until the end
+            }
             board = cb;
             gold = !gold;
             seen.insert(key(&board, gold));
@@ -102,40 +106,122 @@ fn play_long(turns: u64, seed: u64) -> Result<(GameState, Value), String> {
     if hist_len != turns + 1 {
         return Err(format!("history was not built: hash_history().len() = {} after {} turns", hist_len, turns));
     }
-    Ok((g, info))
+    let mid = mid.unwrap_or_else(|| g.clone());
+    Ok((g, mid, info))
 }
 
 /// The operations the property names: query, clone, drop.
-fn exercise(g: GameState) -> Value {
+fn exercise(g: GameState, mid: GameState) -> Value {
     let before = vmstk_kb();
     let n_actions = g.valid_actions().len();
+    let n_norep = g.valid_actions_no_rep().len();
     let term = g.is_terminal().is_some();
     let cp = g.can_pass(true);
+    let hm = g.has_move(g.piece_board()).is_none();
     let text_len = g.to_string().len();
     let hash = g.transposition_hash();
+    let eq = g == mid;
+    // the history list's own queries
+    let (hl, hcount, hhead, tail_len) = {
+        let h = g.unwrap_play_phase().hash_history();
+        let t = h.tail(); // a new list sharing all but the first node
+        (h.len(), h.iter().count(), h.head().map(|z| z.board_state_hash()), t.len())
+    };
     let c = g.clone();
     drop(c);
     // a successor shares the history; dropping the predecessor must not free it
     let first = g.valid_actions_no_rep()[0];
     let succ = g.take_action(&first);
+    // finish the successor's turn by a pass if possible (appends to the shared history)
+    let succ2 = if succ.valid_actions().contains(&Action::Pass) { Some(succ.take_action(&Action::Pass)) } else { None };
     let c2 = g.clone();
-    drop(g); // not the last owner: c2 and succ still hold the list
+    drop(g); // not the last owner: c2, succ and succ2 still hold the list
     drop(succ);
-    let mid = vmstk_kb();
-    drop(c2); // last owner: the whole history is released here
+    drop(succ2);
+    let mid_vm = vmstk_kb();
+    drop(c2); // last owner of the newer half: freed down to the node shared with `mid`
+    let after_newer = vmstk_kb();
+    // the older state is still fully usable, then releases the older half
+    let mid_actions = mid.valid_actions().len();
+    let mid_hist = mid.unwrap_play_phase().hash_history().len();
+    drop(mid);
     let after = vmstk_kb();
-    json!({"vmstk_before_kb": before, "vmstk_mid_kb": mid, "vmstk_after_kb": after, "valid_actions": n_actions, "terminal": term, "can_pass": cp, "printed_len": text_len, "hash": format!("{:#018x}", hash)})
+    json!({"vmstk_before_kb": before, "vmstk_mid_kb": mid_vm, "vmstk_after_newer_half_kb": after_newer, "vmstk_after_kb": after, "valid_actions": n_actions, "valid_actions_no_rep": n_norep, "terminal": term, "can_pass": cp, "has_move": hm, "printed_len": text_len, "hash": format!("{:#018x}", hash), "eq_mid": eq, "history_len": hl, "history_iter_count": hcount, "history_head": hhead.map(|h| format!("{:#018x}", h)), "tail_len": tail_len, "mid_state_valid_actions": mid_actions, "mid_state_history_len": mid_hist})
 }
 
-/// Child process entry: `avm child-longgame <turns> <seed> <thread|main> <stack_bytes>`
+/// A state whose history list has `n` entries, built with the public constructors (cheap way to
+/// get the long list of a long capture-free game for the concurrent-drop observer).
+fn synthetic_long_state(n: u64) -> GameState {
+    let b = gen::long_game_position();
+    let pb = piece_board_of(&b);
+    let h = Zobrist::from_piece_board(pb.piece_board(), true, 0);
+    let h2 = Zobrist::from_piece_board(pb.piece_board(), false, 0);
+    let mut l = List::new();
+    for i in 0..n {
+        l = l.append(if i % 2 == 0 { h2 } else { h });
+    }
+    GameState::new(true, 2 + (n / 2) as usize, Phase::PlayPhase(PlayPhase::initial(h, l)), pb, h)
+}
+
+/// k threads (2 MiB stacks) each own one clone of a long-history state and drop it at the same
+/// instant; the main thread has given up its own handle. Repeated `rounds` times.
+fn concurrent_drop(n: u64, k: usize, rounds: u64, stack: usize) -> Result<Value, String> {
+    use std::sync::atomic::{AtomicUsize, Ordering};
+    use std::sync::Arc;
+    for _ in 0..rounds {
+        let g = synthetic_long_state(n);
+        let gate = Arc::new(AtomicUsize::new(0));
+        let hs: Vec<_> = (0..k)
+            .map(|_| {
+                let mine = g.clone();
+                let gate = Arc::clone(&gate);
+                std::thread::Builder::new()
+                    .stack_size(stack)
+                    .spawn(move || {
+                        gate.fetch_add(1, Ordering::AcqRel);
+                        while gate.load(Ordering::Acquire) < k + 1 {
+                            std::hint::spin_loop();
+                        }
+                        drop(mine);
+                    })
+                    .unwrap()
+            })
+            .collect();
+        while gate.load(Ordering::Acquire) < k {
+            std::hint::spin_loop();
+        }
+        // give up the main thread's handle on a big stack (this one is not the observed drop)
+        let t = std::thread::Builder::new().stack_size(64 << 20).spawn(move || drop(g)).unwrap();
+        t.join().map_err(|_| "main handle drop panicked".to_string())?;
+        gate.fetch_add(1, Ordering::AcqRel);
+        for h in hs {
+            h.join().map_err(|_| "dropper thread panicked".to_string())?;
+        }
+    }
+    Ok(json!({"turns": n, "history_len": n, "threads": k, "rounds": rounds, "spot_checks": 0}))
+}
+
+/// Child process entry: `avm child-longgame <turns> <seed> <thread|main|concurrent> <stack_bytes>`
 pub fn child(args: &[String]) -> i32 {
     let turns: u64 = args.first().and_then(|s| s.parse().ok()).unwrap_or(1000);
     let seed: u64 = args.get(1).and_then(|s| s.parse().ok()).unwrap_or(1);
     let mode = args.get(2).map(|s| s.as_str()).unwrap_or("thread");
     let stack: usize = args.get(3).and_then(|s| s.parse().ok()).unwrap_or(2 << 20);
+    if mode == "concurrent" {
+        return match concurrent_drop(turns, 2 + (seed % 3) as usize, 60, stack) {
+            Ok(v) => {
+                println!("CHILD-JSON {}", v);
+                0
+            }
+            Err(e) => {
+                println!("CHILD-ERR {}", e);
+                4
+            }
+        };
+    }
     let run = move || -> Result<Value, String> {
-        let (g, mut info) = play_long(turns, seed)?;
-        let ex = exercise(g);
+        let (g, mid, mut info) = play_long(turns, seed)?;
+        let ex = exercise(g, mid);
         info["exercise"] = ex;
         Ok(info)
     };
@@ -221,6 +307,10 @@ pub fn c20(cfg: &Cfg) -> i32 {
         for l in vm_l {
             jobs.push((pname.to_string(), bin.clone(), l, cfg.seed, "main"));
         }
+        for (i, s) in seeds.iter().enumerate() {
+            jobs.push((pname.to_string(), bin.clone(), 300_000, *s + i as u64, "concurrent"));
+            jobs.push((pname.to_string(), bin.clone(), 300_000, *s + i as u64 + 1, "concurrent"));
+        }
     }
     let results: Vec<(usize, ChildOut)> = std::thread::scope(|sc| {
         let hs: Vec<_> = jobs.iter().enumerate().map(|(i, j)| sc.spawn(move || (i, run_child(&j.1, j.2, j.3, j.4, 2 << 20)))).collect();
@@ -239,6 +329,9 @@ pub fn c20(cfg: &Cfg) -> i32 {
             sink.distinct(mix(*l, mix(*seed, fnv(pname.as_bytes()) ^ fnv(mode.as_bytes()))));
             if *mode == "thread" {
                 sink.count("survival_runs_held");
+            } else if *mode == "concurrent" {
+                sink.count("concurrent_drop_runs_held");
+                sink.add("simultaneous_last_owner_drops_of_long_histories", j["rounds"].as_u64().unwrap_or(0));
             } else {
                 let e = &j["exercise"];
                 let growth = e["vmstk_after_kb"].as_i64().unwrap_or(0) - e["vmstk_before_kb"].as_i64().unwrap_or(0);
@@ -266,14 +359,33 @@ pub fn c20(cfg: &Cfg) -> i32 {
             }
         }
     }
+    // observer 3 (in-process, no overflow risk): stack span over which a list is freed when its last
+    // owners drop at the same instant, for two lengths
+    {
+        let mut spans = vec![];
+        for n in [500usize, 4000] {
+            let mut worst = 0usize;
+            for k in 2..=4 {
+                let (span, _) = c18bare::concurrent_last_owner_drop(n, k, cfg.n(150, 1500) as usize);
+                worst = worst.max(span);
+            }
+            sink.add("simultaneous_probe_drop_rounds", 3 * cfg.n(150, 1500));
+            spans.push((n, worst));
+        }
+        obs.push(json!({"observer": "simultaneous last-owner drop, drop probes", "max_stack_span_bytes_by_list_length": spans}));
+        if spans[1].1 > spans[0].1 + 16 * 1024 {
+            let sig = "C20|stack_growth|simultaneous_last_owner_drop".to_string();
+            sink.violate("C20", "stack_use_grows_with_history_length", sig, format!("when the last owners of a history list drop it at the same instant the nodes are freed over a stack span that grows with the length: {:?} (bytes by list length)", spans), json!({"kind": "longgame", "turns": 300_000, "seed": cfg.seed, "mode": "concurrent", "profile": "monitor"}));
+        }
+    }
     sink.sample(json!(obs.first().cloned().unwrap_or(json!(null))));
     let mut extra = Map::new();
     extra.insert("child_observations".into(), json!(obs));
     let rep = Report {
         evaluations_counter: "children_run",
-        rule: "W13: child processes play L legal capture-free turns from an open position (steps from valid_actions_no_rep(), repetition legality kept by the harness' exact position set and spot-checked against valid_actions() every 10 000 turns; hash_history().len() must equal L+1), then query, clone, take_action and drop the state. Observer 1: the whole run on a thread with the default 2 MiB stack must exit 0. Observer 2: on the main thread with an unlimited stack the growth of VmStk over the query/clone/drop block at L = 400 000 must not exceed the growth at L = 1 000 by 128 kB. Both in the monitor profile and in plain release. distinct_nontrivial = distinct (L, seed, profile, observer) child runs that completed.".into(),
+        rule: "W13: child processes play L legal capture-free turns from an open position (steps from valid_actions_no_rep(), repetition legality kept by the harness' exact position set and spot-checked against valid_actions() every 10 000 turns; hash_history().len() must equal L+1), then query (action lists, result, can_pass, has_move, printing, hash, ==, history len/iter/head/tail), clone, take_action + pass, and drop the state while a clone of the state at turn L/2 is still alive, then query and drop that older state (Debug formatting is not exercised: the derived Debug of a linked list is recursive by construction and is not one of the queries the property lists). Observer 1: the whole run on a thread with the default 2 MiB stack must exit 0. Observer 2: on the main thread with an unlimited stack the growth of VmStk over the query/clone/drop block at L = 400 000 must not exceed the growth at L = 1 000 by 128 kB. Observer 3: 2-4 threads that are the only owners of one long history drop it at the same instant (spin barrier): children with 300 000-entry histories on 2 MiB threads must survive, and drop probes must show no growth of the stack span between 500 and 4 000 nodes. Observers 1-2 and the children of 3 run in the monitor profile and in plain release. distinct_nontrivial = distinct (L, seed, profile, observer) child runs that completed.".into(),
         assumptions: vec!["'for all lengths' is restated as L up to 4*10^5 (quick) / 2*10^6 (thorough) plus no measurable stack growth between L = 10^3 and L = 4*10^5".into(), "a child that dies for another reason (OOM, external signal) makes the run inconclusive".into()],
-        floors: vec![floor("survival_runs_held", 0, 0), floor("vmstk_comparisons", 1, 1), floor("longest_history_reached", 400_001, 2_000_001)],
+        floors: vec![floor("survival_runs_held", 0, 0), floor("vmstk_comparisons", 1, 1), floor("simultaneous_probe_drop_rounds", 500, 5000), floor("concurrent_drop_runs_held", 0, 0), floor("longest_history_reached", 400_001, 2_000_001)],
         level: "exploration",
         exhaustive: None,
         extra,
